@@ -199,9 +199,10 @@ async def _run(ctx, text):
                     else:
                         try:
                             again = ser.pack_serializable(c02._RawPacked(("nested", fmts, cls), raw))
-                            if canonical and len(again) < off2 - off and fmts[-1][0] != "raw":
+                            if canonical and again != data[off:off2]:
                                 ctx.violation("decode-truncated-part/%s" % cls.__name__,
-                                              "%s: decode consumed %d bytes but the decoded value only accounts for %d" % (
+                                              "%s: decode consumed %d bytes but the decoded value re-encodes to %d different bytes "
+                                              "(a length-prefixed part does not have its declared length)" % (
                                                   cls.__name__, off2 - off, len(again)), meta)
                         except Exception:   # noqa - non-canonical values may not re-encode
                             pass
